@@ -65,6 +65,8 @@ fn main() {
             0
         }
         Some("determinism") => driver::determinism_main(args.get(1).and_then(|s| s.parse().ok()).unwrap_or(2000)),
+        Some("kill-at") => engine_k::kill_at_main(&args[1..]),
+        Some("fidelity") => engine_k::fidelity_main(args.get(1).and_then(|s| s.parse().ok()).unwrap_or(50)),
         Some("c13-micro") => engine_c13::micro_main(&args[1..]),
         Some("make-fixtures") => fixtures::make_main(),
         _ => {
